@@ -15,7 +15,7 @@ structure Guard where
   fields : List String
 
 def guards : List Guard := [
-  ⟨"Session", "participantMutex", ["participants"]⟩,
+  ⟨"Session", "participantMutex", ["participants", "ended"]⟩,
   ⟨"Session", "entityMutex", ["entities"]⟩,
   ⟨"Session", "moduleMutex", ["moduleStates"]⟩,
   ⟨"Session", "frameMutex", ["frameHandlers"]⟩,
